@@ -1,3 +1,5 @@
 import AdbProofs.Lemmas.Bytes
 import AdbProofs.Properties.C02
 import AdbProofs.Properties.C19
+import AdbProofs.Properties.C12
+import AdbProofs.Properties.C13
